@@ -71,3 +71,124 @@ class RuleInfo:
         s = self.spec[rn]
         w = lang.min_word(s) if s is not None else []
         return w or []
+
+
+# ---------------------------------------------------------------------------
+# trees
+PALETTE = ["a", "Z", "0", " ", "\t", "\n", " ", "<", ">", "&", '"', "'", "\\", "/", ":", "-", "_", ".", "é", "ß", "中", "٠",
+           "\U0001F600", "\U00010348", "\x01", "\x7f", " ", "]]>", "&amp;", "%", "{", "}"]
+
+
+def rand_text(rng, maxlen=12):
+    n = rng.randint(0, maxlen)
+    return "".join(rng.choice(PALETTE) for _ in range(n))
+
+
+from gen_pure import min_cost_word, min_cost_nonempty, INF
+
+
+class TreeGen:
+    def __init__(self, ri):
+        self.ri = ri
+        # least fixed point: cost[e] = size of the smallest valid tree rooted at e
+        cost, word = {}, {}
+        changed = True
+        while changed:
+            changed = False
+            for e, rn in ri.mappings.items():
+                s = ri.spec.get(rn)
+                if s is None:
+                    continue
+                if e == "metadata":
+                    c, w = 0, []
+                else:
+                    c, w = min_cost_word(s, cost)
+                if w is not None and 1 + c < cost.get(e, INF):
+                    cost[e] = 1 + c; word[e] = w; changed = True
+        self.cost, self.word = cost, word
+
+    def productive(self, e):
+        return e in self.cost
+
+    def min_tree(self, e, rng=None):
+        import impl
+        rn = self.ri.mappings[e]
+        kids = [self.min_tree(k, rng) for k in self.word[e]]
+        return impl.T(e, self.ri.valid_content(rn, rng, nkids=len(kids)), kids, self.ri.valid_attrs(rn))
+
+    def valid_tree(self, e, rng, depth=0, maxdepth=5, rep=2):
+        import impl
+        rn = self.ri.mappings[e]
+        s = self.ri.spec[rn]
+        if depth >= maxdepth or e == "metadata":
+            return self.min_tree(e, rng)
+        w = None
+        for _ in range(4):
+            cand = lang.sample_word(s, rng, rep=rep)
+            if cand is not None and all(self.productive(k) for k in cand) and lang.in_lang(s, cand, True, rn in self.ri.mixed):
+                w = cand
+                break
+        if w is None:
+            w = self.word[e]
+        kids = [self.valid_tree(k, rng, depth + 1, maxdepth, rep) for k in w]
+        content = self.ri.valid_content(rn, rng, nkids=len(kids))
+        crs = self.ri.rules[rn][2].get("content_rules", [])
+        if content == "some text" or ("anyContent" in crs and rng.random() < 0.5) or (content is None and "strContent" in crs and "emptyContent" not in crs and rng.random() < 0.5):
+            t = rand_text(rng)
+            content = t if (t or "nonEmptyContent" not in crs) else "x"
+        return impl.T(e, content, kids, self.ri.valid_attrs(rn, rng))
+
+
+def nodes_of(t, path=()):
+    yield path, t
+    for i, k in enumerate(t[8]):
+        yield from nodes_of(k, path + (i,))
+
+
+def mutate(t, rng, tg, n=1):
+    """n random adversarial mutations, in place, returns list of descriptions"""
+    import impl
+    desc = []
+    known = list(tg.ri.mappings.keys())
+    for _ in range(n):
+        allnodes = list(nodes_of(t))
+        path, node = rng.choice(allnodes)
+        op = rng.choice(["drop", "dup", "swap", "rename", "content", "attr", "graft", "unknown", "attrdrop", "typed"])
+        kids = node[8]
+        if op == "drop" and kids:
+            kids.pop(rng.randrange(len(kids)))
+        elif op == "dup" and kids:
+            import copy
+            i = rng.randrange(len(kids)); c = copy.deepcopy(kids[i]); strip_ids(c); kids.insert(i, c)
+        elif op == "swap" and len(kids) > 1:
+            i = rng.randrange(len(kids) - 1); kids[i], kids[i + 1] = kids[i + 1], kids[i]
+        elif op == "rename":
+            node[1] = rng.choice(known)
+        elif op == "unknown":
+            node[1] = rng.choice(["zzUnknown", "Dataset", "", "título", "a b"])
+        elif op == "content":
+            node[2] = rng.choice([None, "", rand_text(rng), "12", "abc", "-1", "nan", "1e999", "http://x"])
+        elif op == "typed":
+            node[2] = rng.choice(["181", "-90.5", "12:61:00", "2021-02-29", "ftp://", "1.5", "007", "inf", "0000"])
+        elif op == "attr":
+            node[5].append([rng.choice(["id", "scope", "system", "zzAttr", "lang", "xml:lang"]), rng.choice(["document", "x", "", rand_text(rng, 4)])])
+            d = {}
+            for k, v in node[5]:
+                d[k] = v
+            node[5][:] = [[k, v] for k, v in d.items()]
+        elif op == "attrdrop" and node[5]:
+            node[5].pop(rng.randrange(len(node[5])))
+        elif op == "graft":
+            e = rng.choice(known)
+            if tg.productive(e):
+                kids.insert(rng.randint(0, len(kids)), tg.min_tree(e, rng))
+        else:
+            continue
+        desc.append((op, list(path)))
+    return desc
+
+
+def strip_ids(t):
+    t[0] = None
+    for k in t[8]:
+        strip_ids(k)
